@@ -275,6 +275,38 @@ def _run(plan: dict, sim: sched.Sim, ch: sched.Chooser, dep: deploy.Deployment) 
 
         dep.fs.chunker = chunker
 
+    # busy-spin detector: a waiter that hammers the lock path without ever sleeping makes no
+    # progress in simulated time; the step cap alone cannot tell that from a long honest run
+    spin: dict[str, int] = {}
+    spinning: list[str] = []
+    if dep.fs is not None:
+        lock_path = deploy.JOURNAL_PATH + ".lock"
+        prev_on_op = dep.fs.on_op
+        real_sleep = sim.sleep
+
+        def on_op(op: str, path: str) -> None:
+            if prev_on_op is not None:
+                prev_on_op(op, path)
+            t_ = sim.cur.name if sim.in_task() else None
+            if t_ is None:
+                return
+            if path.startswith(lock_path) and op in ("symlink", "open_excl", "stat", "exists", "rename", "unlink"):
+                spin[t_] = spin.get(t_, 0) + 1
+                if spin[t_] > 4000 and not spinning:
+                    spinning.append("%s made %d consecutive system calls on the lock file without sleeping (crashes so far: %r)" % (t_, spin[t_], crashes))
+                    sim.count("probe.lock_busy_spin")
+                    sim._cap()
+            else:
+                spin[t_] = 0
+
+        def sleep(d: float) -> None:
+            if sim.in_task():
+                spin[sim.cur.name] = 0
+            real_sleep(d)
+
+        dep.fs.on_op = on_op
+        sim.sleep = sleep  # type: ignore[method-assign]
+
     victims = {f["victim"] for f in faults}
     holders: list[str] = []
     overlap: list[str] = []
@@ -396,6 +428,8 @@ def _run(plan: dict, sim: sched.Sim, ch: sched.Chooser, dep: deploy.Deployment) 
     if status == "deadlock":
         why = "; ".join("%s blocked on %s" % (t.name, t.blocked_why) for t in tasks if not t.done)
         return common.result(sim, ch, "violation", prefix + "deadlock", why + " after crashes %r" % crashes, nontrivial=fired > 0)
+    if status == "stepcap" and spinning:
+        return common.result(sim, ch, "violation", prefix + "no-progress|busy spin on the lock file", spinning[0], nontrivial=fired > 0)
     if status == "stepcap":
         # liveness is judged in simulated time: survivors that spin in back-off sleeps pile up
         # virtual seconds; a long but progressing run (big records, small read blocks) does not
